@@ -120,6 +120,14 @@ func histCatalogue() []hprog {
 		// two tasks sharing their first glob, each with its own literal file, and up to three matches
 		{Name: "P13-shared-glob-own-files", Reps: 4, Tasks: []htask{{Name: "ta", Globs: []string{"*.src"}, Lits: []string{"a.txt"}}, {Name: "tb", Globs: []string{"*.src"}, Lits: []string{"b.txt"}}},
 			Files: []hfile{lit("a.txt"), lit("b.txt"), globf("x.src", "v0", "v1"), globf("y.src", "v0"), globf("z.src", "v0")}},
+		// a task whose commands CREATE a file matched by another task's glob (a generated source)
+		{Name: "P14-generates-glob-match", Tasks: []htask{{Name: "ta", Lits: []string{"seed.txt"}, EffFile: 3, EffVal: "gen"}, {Name: "tb", Deps: []string{"ta"}, Globs: []string{"*.src"}}},
+			Files: []hfile{lit("seed.txt"), globf("x.src", "v0"), globf("g.src", absent, "gen")}},
+		// two tasks with exactly the same file list, one before and one after a task that rewrites the file
+		{Name: "P16-same-list-around-a-rewrite", Tasks: []htask{{Name: "ta", Lits: []string{"g.txt"}}, {Name: "tm", Deps: []string{"ta"}, EffFile: 1, EffVal: "gen"}, {Name: "tb", Deps: []string{"tm"}, Lits: []string{"g.txt"}}},
+			Files: []hfile{globf("g.txt", "v0", "gen")}},
+		{Name: "P15-independent-generator", Tasks: []htask{{Name: "ta", EffFile: 2, EffVal: "gen"}, {Name: "tb", Globs: []string{"*.src"}}},
+			Files: []hfile{globf("x.src", "v0", "v1"), globf("g.src", absent, "gen")}},
 		{Name: "P8-three-tasks", Tasks: []htask{{Name: "ta", Lits: []string{"a.txt"}}, {Name: "tb", Lits: []string{"b.txt"}}, {Name: "tc", Deps: []string{"ta", "tb"}}}, Files: []hfile{lit("a.txt"), lit("b.txt")}},
 	}
 }
@@ -228,6 +236,9 @@ type hmodel struct {
 	Last     []string `json:"last"`      // per task: "\x00" = never / removed, else snapshot of its inputs when its last successful run started
 	LastPost []string `json:"last_post"` // ... and when that run's commands had completed (differs only if the commands rewrite an input)
 	Failed   []string `json:"failed"`    // per task: snapshot of inputs at the last failure since the last success, or "\x00"
+	// Unrec: "1" if the last success happened in a run during which the environment kept spok from
+	// writing its cache (and spok reported that error): the "unchanged => skipped" direction cannot bind then
+	Unrec []string `json:"unrec,omitempty"`
 }
 
 const none = "\x00"
@@ -523,7 +534,10 @@ func evalRun(p hprog, d hdisk, m hmodel, op hop, ex hexec) (hmodel, []hviol) {
 	if out.Panic != "" {
 		vs = append(vs, hviol{"*", "panic", out.Panic})
 	}
-	nm := hmodel{Last: append([]string{}, m.Last...), LastPost: append([]string{}, m.LastPost...), Failed: append([]string{}, m.Failed...)}
+	nm := hmodel{Last: append([]string{}, m.Last...), LastPost: append([]string{}, m.LastPost...), Failed: append([]string{}, m.Failed...), Unrec: append([]string{}, m.Unrec...)}
+	for len(nm.Unrec) < len(p.Tasks) {
+		nm.Unrec = append(nm.Unrec, "0")
+	}
 	cur := hdisk{Files: append([]string{}, d.Files...)}
 	// execute one task in the model: returns inputs before and after its commands
 	exec := func(ti int) (pre, post string) {
@@ -537,6 +551,12 @@ func evalRun(p hprog, d hdisk, m hmodel, op hop, ex hexec) (hmodel, []hviol) {
 			nm.Failed[ti] = pre
 		} else {
 			nm.Last[ti], nm.LastPost[ti], nm.Failed[ti] = pre, post, none
+			// if the environment kept spok from recording this success (and spok said so: the run ended
+			// with an error) skip-soundness still binds, "unchanged => skipped" cannot
+			nm.Unrec[ti] = "0"
+			if op.Fault != "" && out.Failed() {
+				nm.Unrec[ti] = "1"
+			}
 		}
 		return
 	}
@@ -581,7 +601,7 @@ func evalRun(p hprog, d hdisk, m hmodel, op hop, ex hexec) (hmodel, []hviol) {
 		if !op.Force {
 			// C02: unchanged since last success => skipped
 			corner := nm.Failed[ti] != none && nm.Failed[ti] == now
-			if declaresFiles(t) && now != "" && nm.Last[ti] == now && nm.LastPost[ti] == now && !corner {
+			if declaresFiles(t) && now != "" && nm.Last[ti] == now && nm.LastPost[ti] == now && !corner && nm.Unrec[ti] != "1" {
 				if !r.Skipped || ran {
 					vs = append(vs, hviol{"C02", "unchanged-task-rerun", fmt.Sprintf("task %s last completed successfully on exactly the current inputs {%s} but was run again (request %v)", t.Name, now, op.Req)})
 				}
@@ -802,7 +822,7 @@ func histSearch(sb *proj.Sandbox, p hprog, prop string, cap int, withForce bool,
 						res.Outcomes["run-ok"]++
 					}
 				} else if op.Kind == "rmcache" {
-					nm = hmodel{Last: make([]string, len(p.Tasks)), LastPost: make([]string, len(p.Tasks)), Failed: append([]string{}, st.M.Failed...)}
+					nm = hmodel{Last: make([]string, len(p.Tasks)), LastPost: make([]string, len(p.Tasks)), Failed: append([]string{}, st.M.Failed...), Unrec: append([]string{}, st.M.Unrec...)}
 					for i := range nm.Last {
 						nm.Last[i], nm.LastPost[i] = none, none
 					}
